@@ -34,7 +34,7 @@ CLAIMED.update({
             "hold in every reachable state of the environment machine (every construction route, NV=2); TLC-simulated behaviours of Env.tla "
             "(NV=3) are replayed in fresh and long-lived real environments with one variable order and results must be ==/hash-equal iff the "
             "specification's structures are equal; random 300-operation histories are validated by Trace_Env (WF of every node, equal "
-            "function <=> same node over all results of the history); operations with one operand from ANOTHER environment must return the specification's canonical structure (Trace_Bdd).",
+            "function <=> same node over all results of the history); operations with one operand from ANOTHER environment must return the specification's canonical structure (Trace_Bdd); a sample of the quantifier / counting formula family of MC_Nest is evaluated by the real solver (constant leaf <=> valid / unsatisfiable, result ordered and reduced).",
             "TLA+ model checking (TLC) of Bdd.tla/Env.tla + spec->impl behaviour replay + impl->spec trace validation"),
     "C13": ("3.C13", "MC_Env: exhaustive exploration of the hash-consing environment machine (NV=2, bounded live handles, all operations incl. "
             "model/retain/clean/fp/drop) with invariants I_Leaves, I_Unique, I_WF, I_Canon, I_Closed and action properties append-only and "
